@@ -11,6 +11,7 @@ import (
 	"bytes"
 	"encoding/json"
 	"fmt"
+	"github.com/TheManticoreProject/Manticore/network/smb/smb_v10/types"
 	"reflect"
 	"strings"
 
@@ -150,10 +151,10 @@ func smbC05Case(c *h.Ctx, mk func() command_interface.CommandInterface, k *smbCa
 // ---- header ----
 
 type c05HeaderCase struct {
-	K     string              `json:"k"`
+	K     string             `json:"k"`
 	Vals  map[string]h.Bytes `json:"vals"` // numerals, most significant digit first
-	Wire  h.Bytes             `json:"wire"`
-	Slots map[string][]int    `json:"slots"`
+	Wire  h.Bytes            `json:"wire"`
+	Slots map[string][]int   `json:"slots"`
 }
 
 func c05Header(c *h.Ctx) error {
@@ -223,6 +224,19 @@ func c05Header(c *h.Ctx) error {
 		}
 		if !bytes.Equal(sfb, k.Vals["SecurityFeatures"]) {
 			c.Fail(site+".Unmarshal", "refdecode:SecurityFeatures", fmt.Sprintf("%x", sfb), sample)
+		}
+		// the 32-bit process id written through SetPID twice (a large one, then one that fits 16 bits): PIDHigh (offset 12) and
+		// PIDLow (offset 26) are both little-endian halves of the LAST value
+		{
+			h3 := header.NewHeader()
+			h3.SetPID(types.ULONG(0x9E370000 | uint32(num("PIDLow"))))
+			small := uint32(num("PIDLow"))
+			h3.SetPID(types.ULONG(small))
+			b3, _ := h3.Marshal()
+			c.Exec(1)
+			if len(b3) == 32 && (b3[12] != 0 || b3[13] != 0 || b3[26] != byte(small) || b3[27] != byte(small>>8)) {
+				c.Fail(site+".SetPID", "layout:PIDHigh-after-second-set", fmt.Sprintf("SetPID(%#x) after SetPID(0x9e37....): bytes 12..13 = %x, 26..27 = %x", small, b3[12:14], b3[26:28]), sample)
+			}
 		}
 		// a header constructed NOW is the default header, whatever was encoded or decoded before (no default object shared
 		// between headers): its encoding is the one the first default header of this run had
